@@ -1407,7 +1407,15 @@ pub fn min_slots(seq: &[u32]) -> u32 {
 fn pack_verdict(seq: &[u32]) -> Option<bool> {
     let declared = slots(seq);
     if seq.len() > 8 {
-        // too long for brute force: sorted orders decide Must, otherwise gray
+        // too long for brute force: a lower bound decides "already optimal" (two members wider than
+        // 128 bits can never share a slot, and no layout needs fewer than ceil(total bits / 256) slots),
+        // the two sorted orders decide Must, anything else is gray
+        let wide = seq.iter().filter(|x| **x > 128).count() as u32;
+        let total: u64 = seq.iter().map(|x| *x as u64).sum();
+        let lower = wide.max(((total + 255) / 256) as u32);
+        if declared == lower {
+            return None;
+        }
         let mut a = seq.to_vec();
         a.sort();
         let mut d = a.clone();
